@@ -60,9 +60,35 @@ def load_playbook_yaml(playbook):
         raise PlaybookVerificationError("Cannot load a playbook from an empty input.")
 
     try:
-        return yaml.load(playbook)
+        plays = yaml.load(playbook)
+        _expand_merge_keys(plays)
+        return plays
     except Exception:
         raise PlaybookVerificationError("Could not load the playbook.")
+
+
+def _expand_merge_keys(node, seen=None):
+    """Make the keys that YAML merge keys ('<<') bring into a mapping explicit.
+
+    The round-trip loader only lists a merged key in keys()/items() when the merged
+    mapping was already built at the time of the merge; other merged keys are only
+    reachable through get(). Explicit keys win; among merged mappings the earlier wins.
+    """
+    seen = set() if seen is None else seen
+    if id(node) in seen:
+        return
+    seen.add(id(node))
+    if isinstance(node, CommentedMap):
+        for _, merged in node.merge:
+            _expand_merge_keys(merged, seen)
+            for key in merged.keys():
+                if key not in node.keys():
+                    node[key] = merged[key]
+        for value in node.values():
+            _expand_merge_keys(value, seen)
+    elif isinstance(node, (list, CommentedSeq)):
+        for item in node:
+            _expand_merge_keys(item, seen)
 
 
 def normalize_play_py2(play):
